@@ -364,6 +364,32 @@ func (m *monC04) OnTransition(t *Transition) []Violation {
 			pstar = ref.R(mi.MatchedPrice.String())
 		}
 		m.st.Inc("batch_settlements")
+		// In single-auction scenarios where bidders do nothing but bid (tag "ledger"), what a bidder
+		// really paid into the escrow is a function of the pre-state alone: genesis balance minus current
+		// balance minus the bid fees of their recorded bids. It replaces the record-derived reservation,
+		// so that an over- or under-charge at placement or modification shows up in this property's own
+		// bounds (and not only in C01/C02/C11).
+		if t.Scen.Tags["ledger"] {
+			for bidder := range reserved {
+				name := world.NameOf(bidder)
+				gen := new(big.Int)
+				if cs, ok := t.Scen.Cfg.Balances[name]; ok {
+					gen = cs.AmountOf(a.PayDenom).BigInt()
+				}
+				fees := new(big.Int)
+				for _, b := range t.Pre.Bids[a.ID] {
+					if b.Bidder == bidder {
+						fees.Add(fees, t.Pre.BidFee.Get(a.PayDenom))
+					}
+				}
+				actual := ref.Sub(ref.Sub(gen, t.Pre.BalOf(bidder, a.PayDenom)), fees)
+				if actual.Cmp(reserved[bidder]) != 0 {
+					m.st.Inc("ledger_differs_from_records")
+				}
+				reserved[bidder] = actual
+			}
+			m.st.Inc("batch_settlements_with_ledger")
+		}
 		for bidder, res := range reserved {
 			q := got[bidder]
 			if q == nil {
